@@ -430,6 +430,19 @@ def _p5(ctx, R):
                             R.bad("P5", "%s|except %s|swallow" % (f.key, t), f.loc(h),
                                   "%s handles %s without re-raising (`%s`): a malformed input continues with a half-built netlist instead of failing"
                                   % (f.qualname, t, short(h.body[0], 50)))
+    # a return / break / continue inside a finally block discards the exception in flight
+    for rel in PARSER_MODULES:
+        mod = P.module(rel)
+        for f in mod.all_funcs():
+            for tr in walk_local(f.node):
+                if isinstance(tr, ast.Try) and tr.finalbody:
+                    n += 1
+                    esc = [x for st in tr.finalbody for x in ast.walk(st) if isinstance(x, (ast.Return, ast.Break, ast.Continue))]
+                    if esc:
+                        R.bad("P5", "%s|finally-escape" % f.key, f.loc(esc[0]),
+                              "%s leaves its `finally` block with `%s`: the parse error in flight is discarded and a half-built netlist is handed back" % (f.qualname, short(esc[0], 30)))
+                    else:
+                        R.ok("P5", "%s: finally block does not swallow the error" % f.qualname, f.loc(tr))
     R.count("except handlers (P5)", n)
     R.floor("except handlers (P5)", 12)
 
